@@ -46,6 +46,7 @@ def sweep(ctx: fw.Ctx, pid: str):
             ctx.fail(key, {"text": text, **info, "output": res["output"]},
                      f"{cl} {det}: {text!r} -> {res['output']!r}" if res["output"] is not None
                      else f"{cl} {det}: {text!r}: {res['fails'].get('raises')}")
+    fragment_probes(ctx, pid)
     if not ctx.quick:
         attributed_part(ctx, pid, prog.enumerate_adjacent_pairs())
     return n
@@ -320,3 +321,28 @@ def fragment_correspondence(ctx: fw.Ctx):
     ctx.count("fragment_corr_compared", cov["compared"])
     ctx.count("fragment_corr_disagreements", bad)
     ctx.extra["fragment"] = cov
+
+
+# ---------------------------------------------------------------- inputs of the fragment counterexample theorems
+# (Lean theorem, property, text): the concrete Cst of a `cex_*` theorem of the fragment sections, as
+# text. The oracle is evaluated on the IMPLEMENTATION; a failure is a property failure like any other
+# (classified with parent "<fragment>" and the theorem's name), so an open defect stays visible on
+# every run and a repaired one makes the `cex_*` theorem the thing that breaks the tie.
+FRAGMENT_PROBES = [
+    ("Nima.C03.cex_comment_overtakes", "C03", "[ x\n /* b */ /* c */ y ]"),
+    ("Nima.C03.cex_comment_overtakes", "C03", "x\n# a\n/* b */ /* c */\n"),
+]
+
+
+def fragment_probes(ctx: fw.Ctx, pid: str):
+    clauses = CLAUSES.get(pid, ())
+    for thm, prop, text in FRAGMENT_PROBES:
+        if prop != pid:
+            continue
+        res = layout.evaluate(text)
+        ctx.case({"text": text, "template": "fragment-probe", "theorem": thm}, True)
+        for cl, det in failures_of(res, clauses):
+            ctx.fail({"clause": cl, "detail": det, "parent": "<fragment>", "cex": thm, "before": "", "after": "",
+                      "leading_ws": False},
+                     {"text": text, "output": res["output"], "theorem": thm},
+                     f"{cl} {det}: {text!r} -> {res['output']!r} (counterexample of {thm})")
